@@ -216,3 +216,232 @@ func H_C17_BstI64(steps int) { bstHist[int64](steps) }
 func H_C17_BstInt(steps int) { bstHist[int](steps) }
 func H_C17_BstF32(steps int) { bstHist[float32](steps) } // run in fp mode
 func H_C17_BstF64(steps int) { bstHist[float64](steps) } // run in fp mode
+
+// ---- Bst: one inductive step from an arbitrary valid tree (any history length) ----
+
+// shape of a binary tree: nil = empty
+type bshape struct{ l, r *bshape }
+
+// shapesOf enumerates all binary tree shapes with exactly n nodes.
+func shapesOf(n int) []*bshape {
+	if n == 0 {
+		return []*bshape{nil}
+	}
+	var out []*bshape
+	for k := 0; k < n; k++ {
+		for _, l := range shapesOf(k) {
+			for _, r := range shapesOf(n - 1 - k) {
+				out = append(out, &bshape{l, r})
+			}
+		}
+	}
+	return out
+}
+
+type bnodeInfo[T helper.Number] struct {
+	node *helper.BstNode[T]
+	val  T
+}
+
+// buildTree materialises a shape with fresh symbolic values; collects nodes in-order.
+func buildTree[T helper.Number](s *bshape, next *int, nodes *[]bnodeInfo[T]) *helper.BstNode[T] {
+	if s == nil {
+		return nil
+	}
+	n := new(helper.BstNode[T])
+	l := buildTree(s.l, next, nodes)
+	v := vrt.Num[T]("t", *next)
+	*next = *next + 1
+	*nodes = append(*nodes, bnodeInfo[T]{n, v})
+	r := buildTree(s.r, next, nodes)
+	vrt.SetField(n, "value", v)
+	if l != nil {
+		vrt.SetField(n, "left", l)
+	}
+	if r != nil {
+		vrt.SetField(n, "right", r)
+	}
+	return n
+}
+
+// subtree bounds: every value in the left subtree <= node value <= every value in the right subtree.
+// (Insert alone keeps the right side strict, but removing a two-child node moves the minimum of its
+// right subtree up while an equal value may stay below it, so the strict form is not inductive;
+// the non-strict form is, and it suffices for Contains / Remove / Min / Max.)
+func assumeSearchInv[T helper.Number](s *bshape, vals []T, lo, hi int) {
+	// vals[lo:hi] are the in-order values of this subtree; root index = lo + size(left)
+	if s == nil {
+		return
+	}
+	k := lo + sizeOf(s.l)
+	for i := lo; i < k; i++ {
+		vrt.Assume(vals[i] <= vals[k])
+	}
+	for i := k + 1; i < hi; i++ {
+		vrt.Assume(vals[k] <= vals[i])
+	}
+	assumeSearchInv(s.l, vals, lo, k)
+	assumeSearchInv(s.r, vals, k+1, hi)
+}
+
+func sizeOf(s *bshape) int {
+	if s == nil {
+		return 0
+	}
+	return 1 + sizeOf(s.l) + sizeOf(s.r)
+}
+
+// walk the real tree after the operation: in-order values, and the invariant
+func inorder[T helper.Number](n *helper.BstNode[T], depth int, out *[]T, ok *bool, hasLo bool, lo T, hasHi bool, hi T) {
+	if n == nil || depth > 8 {
+		return
+	}
+	v := vrt.GetField(n, "value").(T)
+	if hasLo && !(v >= lo) {
+		*ok = false
+	}
+	if hasHi && !(v <= hi) {
+		*ok = false
+	}
+	l := vrt.GetField(n, "left").(*helper.BstNode[T])
+	r := vrt.GetField(n, "right").(*helper.BstNode[T])
+	inorder(l, depth+1, out, ok, hasLo, lo, true, v)
+	*out = append(*out, v)
+	inorder(r, depth+1, out, ok, true, v, hasHi, hi)
+}
+
+func bstStep[T helper.Number](size, shape, op int) {
+	shapes := shapesOf(size)
+	if shape >= len(shapes) {
+		vrt.Reach("no-such-shape")
+		return
+	}
+	b := helper.NewBst[T]()
+	probe := new(helper.BstNode[T])
+	if vrt.NumFields(b) != 1 || vrt.NumFields(probe) != 3 {
+		vrt.Note("bst_representation_changed", 1)
+		return
+	}
+	next := 0
+	var nodes []bnodeInfo[T]
+	root := buildTree[T](shapes[shape], &next, &nodes)
+	vals := make([]T, len(nodes))
+	for i := range nodes {
+		vals[i] = nodes[i].val
+	}
+	assumeSearchInv(shapes[shape], vals, 0, len(vals))
+	if root != nil {
+		vrt.SetField(b, "root", root)
+	}
+	x := vrt.Num[T]("x")
+	// multiset before: vals; expected after
+	want := append([]T(nil), vals...)
+	switch op {
+	case 0:
+		b.Insert(x)
+		want = append(want, x)
+	case 1:
+		got := b.Remove(x)
+		found := false
+		var rest []msEntry[T]
+		for _, v := range vals {
+			hit := !found && v == x
+			if hit {
+				found = true
+			}
+			rest = append(rest, msEntry[T]{v, !hit})
+		}
+		vrt.Assert("remove_result", got == found)
+		// compare as multisets below through counts of x and of every old value
+		cnt := func(q T, xs []T) int {
+			c := 0
+			for _, v := range xs {
+				if v == q {
+					c++
+				}
+			}
+			return c
+		}
+		var after []T
+		okInv := true
+		var zero T
+		inorder(vrt.GetField(b, "root").(*helper.BstNode[T]), 0, &after, &okInv, false, zero, false, zero)
+		vrt.Assert("invariant_after", okInv)
+		exp := len(vals)
+		if found {
+			exp--
+		}
+		vrt.Assert("size_after", len(after) == exp)
+		dx := 0
+		if found {
+			dx = 1
+		}
+		vrt.Assert("count_x", cnt(x, after) == cnt(x, vals)-dx)
+		for i, v := range vals {
+			d := 0
+			if found && v == x {
+				d = 1
+			}
+			vrt.AssertAt("count_old", i, cnt(v, after) == cnt(v, vals)-d)
+		}
+		vrt.Reach("end")
+		return
+	case 2:
+		has := false
+		for _, v := range vals {
+			if v == x {
+				has = true
+			}
+		}
+		vrt.Assert("contains", b.Contains(x) == has)
+	case 3:
+		if len(vals) > 0 {
+			mn, mx := vals[0], vals[0]
+			for _, v := range vals {
+				if v < mn {
+					mn = v
+				}
+				if v > mx {
+					mx = v
+				}
+			}
+			vrt.AssertEq("min", b.Min(), mn)
+			vrt.AssertEq("max", b.Max(), mx)
+		} else {
+			vrt.AssertEq("min_empty", b.Min(), T(0))
+			vrt.AssertEq("max_empty", b.Max(), T(0))
+		}
+	}
+	var after []T
+	okInv := true
+	var zero T
+	inorder(vrt.GetField(b, "root").(*helper.BstNode[T]), 0, &after, &okInv, false, zero, false, zero)
+	vrt.Assert("invariant_after", okInv)
+	vrt.Assert("size_after", len(after) == len(want))
+	if op == 0 {
+		cnt := func(q T, xs []T) int {
+			c := 0
+			for _, v := range xs {
+				if v == q {
+					c++
+				}
+			}
+			return c
+		}
+		vrt.Assert("count_x", cnt(x, after) == cnt(x, vals)+1)
+		for i, v := range vals {
+			d := 0
+			if v == x {
+				d = 1
+			}
+			vrt.AssertAt("count_old", i, cnt(v, after) == cnt(v, vals)+d)
+		}
+	}
+	vrt.Reach("end")
+}
+
+// H_C17_BstStep*: one arbitrary operation (0 Insert, 1 Remove, 2 Contains, 3 Min/Max)
+// on an arbitrary valid tree of the given size and shape.
+func H_C17_BstStepI8(size, shape, op int)  { bstStep[int8](size, shape, op) }
+func H_C17_BstStepI64(size, shape, op int) { bstStep[int64](size, shape, op) }
+func H_C17_BstStepF64(size, shape, op int) { bstStep[float64](size, shape, op) } // fp mode
